@@ -227,7 +227,7 @@ fn gen_dfs(rng: &mut Rng, cfg: &GenCfg, pos: &Pos, depth: usize, width: usize, o
 
 pub fn gen_plan(property: &str, seed: u64, index: u64, tier: Tier) -> Plan {
     let mut rng = Rng::new(mix(seed, index, 0x4853));
-    let cfg = cfg_for(property, tier);
+    let mut cfg = cfg_for(property, tier);
     let (_kind, start) = choose_start(&mut rng, &cfg.starts);
     let lru = *rng.pick(&cfg.lrus);
     if property == "C02" && rng.below(40) == 0 {
@@ -260,6 +260,14 @@ pub fn gen_plan(property: &str, seed: u64, index: u64, tier: Tier) -> Plan {
     } else {
         scenario = "random-history";
         let mut policy = *rng.pick(&cfg.policies);
+        if property == "C04" && index % 7 == 5 {
+            // deep stacks: a long game without the expensive bracket calls, then a complete unwind
+            cfg.weights = [90, 3, 0, 0, 0, 0, 0, 0, 0];
+            cfg.min_len = 150;
+            cfg.max_len = 320;
+            cfg.max_plies = 400;
+            policy = if rng.chance(1, 2) { Policy::Frozen } else { Policy::Uniform };
+        }
         if property == "C04" && index % 3 == 0 && rng.chance(3, 4) {
             // registered runs: recurrences matter, so shuffle
             policy = Policy::Shuffle;
@@ -330,6 +338,17 @@ pub fn gen_plan(property: &str, seed: u64, index: u64, tier: Tier) -> Plan {
                     ops.push(op);
                 }
             }
+        }
+    }
+    // deep unwind: some runs end by rolling the whole history back, however long it is
+    if matches!(property, "C04" | "C05" | "C12" | "C16" | "C17") && scenario == "random-history" && rng.chance(1, 3) {
+        let depth = ops.iter().fold(0i64, |d, o| match o {
+            Op::Make(_) => d + 1,
+            Op::Undo => (d - 1).max(0),
+            _ => d,
+        });
+        for _ in 0..depth {
+            ops.push(Op::Undo);
         }
     }
     Plan {
